@@ -75,7 +75,9 @@ func c08WellFormed(b []byte) bool {
 	if len(b) == 0 {
 		return true
 	}
-	return c01ImplParses(b) && c08Lenient(b)
+	// a canonical pointer by the independent spec grammar is well formed whatever the implementation's decoder says about it
+	// (a decoder that starts rejecting valid pointers must not move the oracle either)
+	return c01StrictCanonical(b) || (c01ImplParses(b) && c08Lenient(b))
 }
 
 func c08Inputs(thorough bool) []c01Input {
@@ -85,14 +87,14 @@ func c08Inputs(thorough bool) []c01Input {
 	}
 	add("empty", "ptr", []byte{}, 0)
 	// (1) canonical base pointers
-	for i := 0; i < 5; i++ {
+	for i := 0; i < 6; i++ {
 		p := c01BasePointerText(i)
 		add(fmt.Sprintf("canon%d", i), "ptr", []byte(p), len(p))
 	}
 	// (2) non-canonical spellings (the implementation's own decoder decides which of them are pointers)
 	bases := []int{0, 3}
 	if thorough {
-		bases = []int{0, 1, 2, 3, 4}
+		bases = []int{0, 1, 2, 3, 4, 5}
 	}
 	for _, i := range bases {
 		p := c01BasePointerText(i)
